@@ -198,6 +198,12 @@ func runGraph(prop string, mix opMix) func(s *Sim) {
 			case 0: // create a node under an existing node: SendNode (points, then edge) or a raw edge batch
 				parent := pickNode()
 				id := newNode()
+				if wl.Chance(1, 10) {
+					// a placement without a parent (what the client helpers produce for an empty parent): an edge like
+					// any other, with a hash of its own, on top of which subtrees, mirrors and moves work as usual
+					parent = "none"
+					in.TopLevel = append(in.TopLevel, id)
+				}
 				g.edges[[2]string{parent, id}] = true
 				typ := g.typ[id]
 				if wl.Chance(1, 2) {
